@@ -45,6 +45,35 @@ def cases(tier, seed):
     for i in range(n_rand // 10):
         c = G.rand_list(rng, depth=3, names="x")
         yield dict(c, kind="list", evaluate=True, origin="xnames")
+    # inputs named like cse's fresh symbols, some of them only passed through bare (x0 appears in no compound expression)
+    for i in range(n_rand // 10):
+        c = G.rand_list(rng, n_in=rng.randint(3, 6), depth=rng.choice([2, 3]), n_ret=rng.randint(2, 3))
+        m = {nm: f"x{k}" for k, nm in enumerate(c["inputs"])}
+
+        def ren(e):
+            if isinstance(e, str):
+                return m.get(e, e)
+            if isinstance(e, list):
+                return [e[0]] + [ren(x) for x in e[1:]]
+            return e
+
+        lst = [[nm, ren(e)] for nm, e in c["list"]]
+        if rng.random() < 0.7:
+            # one return bit is a bare input that the other definitions do not mention, the others share a sub-expression
+            bare = rng.choice(list(m.values()))
+            shared = ["and", rng.choice([v for v in m.values() if v != bare]), rng.choice([v for v in m.values() if v != bare])]
+            rets = [nm for nm, _ in lst if nm.startswith("_ret")]
+
+            def drop(e):
+                if e == bare:
+                    return shared[1]
+                if isinstance(e, list):
+                    return [e[0]] + [drop(x) for x in e[1:]]
+                return e
+
+            lst = [[nm, drop(e)] for nm, e in lst]
+            lst = [[nm, (bare if nm == rets[0] else [rng.choice(["xor", "or", "and"]), e, shared])] if nm in rets else [nm, e] for nm, e in lst]
+        yield {"inputs": list(m.values()), "list": lst, "kind": "list", "evaluate": True, "origin": "xinputs"}
     if tier == "thorough":
         for e in G.enum_small():
             yield {"kind": "list", "inputs": ["a", "b", "c"], "list": [["_ret", e]], "evaluate": False, "origin": "enum"}
